@@ -42,7 +42,8 @@ TIMEOUT = {"quick": 900, "thorough": 7200}
 SKIP_KEYS = {"prev", "next", "raw", "parsed", "hdr_len", "payload_len", "arr",
              "tcplen", "_next_header_type", "extension_headers"}
 
-KINDS = ["arp", "tcp", "tcp_opts", "udp", "icmp_echo", "icmp_unreach",
+KINDS = ["arp", "tcp", "tcp_opts", "udp", "tcp_csum0", "udp_csum0", "icmp_csum0",
+         "ip_csum0", "icmp_echo", "icmp_unreach",
          "icmp_texc", "icmp_unreach_quoting", "icmp_texc_quoting", "ip_raw", "ip_opts", "llc", "snap", "ip6_udp", "ip6_tcp",
          "ip6_icmp", "mpls", "gre", "vxlan", "igmp", "rip", "eapol", "vlan_qinq"]
 
@@ -134,6 +135,37 @@ def build (kind, rng):
                 dstport=rng.choice([0, 1, 9, 65535, 40001, 54321]))
     u.payload = payload
     set_l3(0x0800, ip4(17, u))
+  elif kind in ("tcp_csum0", "udp_csum0", "icmp_csum0", "ip_csum0"):
+    # Packets whose true checksum is exactly 0x0000 (about one in 65536 of
+    # random traffic, so it has to be steered): build once with a zero word in
+    # the payload (or a zero IP id), read the checksum the library emits, put
+    # that value into the zero word - the one's complement sum is then 0xffff
+    # and the checksum 0.  TCP, ICMP and the IP header send 0 as 0; UDP must
+    # send 0xffff instead (0 means "no checksum").
+    tagged = False
+    body = b"\0\0" + rbytes(rng, rng.choice([0, 1, 8, 9, 98]))
+    holder = None
+    if kind == "tcp_csum0":
+      l4 = pkt.tcp(srcport=rint(rng, 16), dstport=rint(rng, 16), seq=rint(rng, 32),
+                   ack=rint(rng, 32), flags=0x18, win=rint(rng, 16))
+      l4.payload = body; holder = l4; proto = 6; off = 14 + 20 + 16
+    elif kind == "udp_csum0":
+      l4 = pkt.udp(srcport=40000, dstport=40001)
+      l4.payload = body; holder = l4; proto = 17; off = 14 + 20 + 6
+    elif kind == "icmp_csum0":
+      holder = pkt.echo(id=rint(rng, 16), seq=rint(rng, 16))
+      holder.payload = body
+      l4 = pkt.icmp(type=8, code=0); l4.payload = holder
+      proto = 1; off = 14 + 20 + 2
+    else:
+      l4 = pkt.udp(srcport=40000, dstport=40001); l4.payload = body
+      proto = 17; off = 14 + 10
+    ip = ip4(proto, l4)
+    if kind == "ip_csum0": ip.id = 0
+    set_l3(0x0800, ip)
+    c = struct.unpack_from("!H", e.pack(), off)[0]
+    if kind == "ip_csum0": ip.id = c
+    else: holder.payload = struct.pack("!H", c) + body[2:]
   elif kind == "icmp_echo":
     ech = pkt.echo(id=rint(rng, 16), seq=rint(rng, 16))
     ech.payload = payload
@@ -326,13 +358,27 @@ def compare_chains (fire, a, b, label):
   return True
 
 
+def field_equals (data, off, prefix=b"", zero_as=0):
+  """
+  The 16-bit checksum field at data[off] *equals* the RFC 1071 checksum
+  computed over the data with that field zeroed (summing to 0xffff is not
+  enough: 0x0000 and 0xffff both do, and only one of them is what the RFC
+  says to send).  zero_as: what a computed 0 is sent as (UDP: 0xffff).
+  """
+  z = data[:off] + b"\0\0" + data[off + 2:]
+  want = inet.csum(prefix + z)
+  if want == 0: want = zero_as
+  got = struct.unpack_from("!H", data, off)[0]
+  return got == want
+
+
 def verify_bytes (fire, rep, b, label):
   """Length fields and checksums of emitted bytes, located independently."""
   d = F.parse(b)
   if "ip" in d:
     ip = d["ip"]; o = ip["off"]
     rep.count("ipv4_csums")
-    if not inet.verify(b[o:o + ip["ihl"]]):
+    if not field_equals(b[o:o + ip["ihl"]], 10):
       fire("%s: IPv4 header checksum invalid" % label, b[o:o + ip["ihl"]].hex())
       return False
     if ip["total_len"] != len(b) - o:
@@ -341,7 +387,7 @@ def verify_bytes (fire, rep, b, label):
     l4 = ip["l4_off"]; seg = b[l4:ip["end"]]
     if "tcp" in d:
       rep.count("l4_csums")
-      if inet.ones_sum(inet.pseudo4(ip["src"], ip["dst"], 6, len(seg)) + seg) != 0xffff:
+      if not field_equals(seg, 16, inet.pseudo4(ip["src"], ip["dst"], 6, len(seg))):
         fire("%s: TCP checksum invalid" % label, "segment %d bytes" % len(seg))
         return False
     if "udp" in d:
@@ -349,12 +395,13 @@ def verify_bytes (fire, rep, b, label):
       if d["udp"]["length"] != len(seg):
         fire("%s: UDP length field wrong" % label,
              "%d vs %d" % (d["udp"]["length"], len(seg))); return False
-      if inet.ones_sum(inet.pseudo4(ip["src"], ip["dst"], 17, len(seg)) + seg) != 0xffff:
+      if not field_equals(seg, 6, inet.pseudo4(ip["src"], ip["dst"], 17, len(seg)),
+                          zero_as=0xffff):
         fire("%s: UDP checksum invalid" % label, "segment %d bytes (%s)" %
              (len(seg), "odd" if len(seg) & 1 else "even")); return False
     if "icmp" in d:
       rep.count("icmp_csums")
-      if not inet.verify(seg):
+      if not field_equals(seg, 2):
         fire("%s: ICMP checksum invalid" % label, "%d bytes" % len(seg))
         return False
   if d.get("l3type") == 0x86dd and len(b) >= d["l3off"] + 40:
@@ -367,7 +414,10 @@ def verify_bytes (fire, rep, b, label):
            "%d vs %d" % (plen_, len(seg))); return False
     if nh in (6, 17, 58):
       rep.count("v6_csums")
-      if inet.ones_sum(inet.pseudo6(src, dst, nh, len(seg)) + seg) != 0xffff:
+      if not field_equals(seg, {6: 16, 17: 6, 58: 2}[nh],
+                          inet.pseudo6(src, dst, nh, len(seg)),
+                          zero_as=0xffff if nh == 17 else 0) \
+         and len(seg) >= {6: 20, 17: 8, 58: 4}[nh]:
         fire("%s: %s checksum over IPv6 invalid" %
              (label, {6: "TCP", 17: "UDP", 58: "ICMPv6"}[nh]),
              "segment %d bytes" % len(seg)); return False
